@@ -32,6 +32,11 @@ type c11Case struct {
 	Cookies  map[string]string `json:"cookies"`
 	NoCookie bool              `json:"no_cookie_store,omitempty"`
 	Prog     []c11Instr        `json:"prog"`
+	// Chain: the program from index Chain[0] on runs inside event handlers (authboss.Events, the way
+	// modules hook into each other): segment i = Prog[Chain[i]:Chain[i+1]], handler i reports
+	// handled = Handled[i]. All handlers get the response writer FireAfter was called with.
+	Chain   []int  `json:"chain,omitempty"`
+	Handled []bool `json:"handled,omitempty"`
 }
 
 type c11Event struct {
@@ -119,8 +124,7 @@ func c11Run(c c11Case) *Violation {
 			}
 			layers = append([]http.ResponseWriter{cur}, layers...)
 		}
-		for _, in := range c.Prog {
-			lw := layers[in.Via%len(layers)]
+		exec := func(in c11Instr, lw http.ResponseWriter, r *http.Request) {
 			switch in.Op {
 			case "put":
 				if in.Store == "session" {
@@ -161,6 +165,32 @@ func c11Run(c c11Case) *Violation {
 					readProblem = fmt.Sprintf("read %s[%q] = %q,%v; request-start value %q,%v", in.Store, in.Key, got, ok, want, wok)
 				}
 			}
+		}
+		direct := len(c.Prog)
+		if len(c.Chain) > 0 && c.Chain[0] <= len(c.Prog) {
+			direct = c.Chain[0]
+		}
+		for _, in := range c.Prog[:direct] {
+			exec(in, layers[in.Via%len(layers)], r)
+		}
+		if direct < len(c.Prog) || len(c.Chain) > 0 {
+			for i := range c.Chain {
+				from, to := c.Chain[i], len(c.Prog)
+				if i+1 < len(c.Chain) {
+					to = c.Chain[i+1]
+				}
+				if from > len(c.Prog) || to > len(c.Prog) || from > to {
+					continue
+				}
+				seg, handled := c.Prog[from:to], i < len(c.Handled) && c.Handled[i]
+				ab.Events.After(authboss.EventAuth, func(hw http.ResponseWriter, hr *http.Request, _ bool) (bool, error) {
+					for _, in := range seg {
+						exec(in, hw, hr)
+					}
+					return handled, nil
+				})
+			}
+			_, _ = ab.Events.FireAfter(authboss.EventAuth, layers[0], r)
 		}
 	})
 	func() {
@@ -329,6 +359,19 @@ func c11Gen(t *rapid.T) c11Case {
 			in.Key = rapid.SampledFrom(c11Keys).Draw(t, "key")
 		}
 		c.Prog = append(c.Prog, in)
+	}
+	// the tail of the program runs inside 1-3 chained event handlers (modules hooking into each other)
+	if len(c.Prog) >= 2 && rapid.IntRange(0, 9).Draw(t, "chain") < 3 {
+		k := rapid.IntRange(1, 3).Draw(t, "nhandlers")
+		at := rapid.IntRange(0, len(c.Prog)-1).Draw(t, "chainat")
+		for i := 0; i < k && at <= len(c.Prog); i++ {
+			c.Chain = append(c.Chain, at)
+			c.Handled = append(c.Handled, rapid.Bool().Draw(t, "handled"))
+			at += rapid.IntRange(0, 3).Draw(t, "seglen")
+			if at > len(c.Prog) {
+				at = len(c.Prog)
+			}
+		}
 	}
 	// a streaming handler: the body goes out in very many pieces ("however many times the handler
 	// writes"); 2% of the programs, the 16-bit range only in the thorough tier
